@@ -269,8 +269,13 @@ def run(ctx, P, a):
 
     thm_status = getattr(P, "THEOREMS", {})
     proved = audit_info.get("theorems", {})
-    obligations = max(len(audit_info.get("wanted", [])), len(thm_status), 1)
-    discharged = len(proved) if ok_props and not any("audit" in b["what"] for b in broken) else 0
+    # obligations = the property theorems submitted to the kernel (every `#print axioms` line of Audit/<id>.lean);
+    # statements that are formulated but not proved are listed separately and are not counted as obligations
+    wanted = audit_info.get("wanted") or [k.split(".")[-1] for k in proved] or list(thm_status)
+    obligations = max(len(wanted), 1)
+    answered = {k.split(".")[-1] for k in proved}
+    discharged = (len([w for w in wanted if w.split(".")[-1] in answered])
+                  if ok_props and not any("audit" in b["what"] for b in broken) else 0)
     nontriv = set()
     for c in all_cases:
         if P.nontrivial(c):
@@ -287,6 +292,7 @@ def run(ctx, P, a):
                         + list(getattr(P, "TRUSTED", [])),
         "theorems": {k.split(".")[-1]: {"axioms": v, "status": thm_status.get(k.split(".")[-1], "full")}
                      for k, v in proved.items()},
+        "stated_not_proved": {k: v for k, v in thm_status.items() if k.split(".")[-1] not in answered},
         "gen_digest": digest,
         "evaluations": evals + searched,
         "distinct_nontrivial": len(nontriv),
